@@ -436,7 +436,7 @@ def m_deref(it, args, callee, depth):
         inner = it.load_ref(r)
         if isinstance(inner, tuple) and inner[0] == "ref":
             return inner
-        if isinstance(inner, tuple) and inner[0] == "array":
+        if isinstance(inner, tuple) and inner[0] in ("array", "symvec"):
             return r
     return NotImplemented
 
